@@ -56,6 +56,11 @@ TABLE = [
      "more than 65,535 groups of attributes / events / links, or more than 65,536 ids, panicked instead of returning an error"),
 ]
 
+# recorded findings: property, clause, feature substring, witness file name, runs
+FINDINGS = [
+    ("C04", "decode-ok", "class=default-consumer-memory-limit", "finding-dictionary-bytes-vs-memory-limit.json", 12000),
+]
+
 def sh(cmd, **kw):
     return subprocess.run(cmd, stdout=subprocess.PIPE, stderr=subprocess.STDOUT, text=True, **kw)
 
@@ -119,6 +124,27 @@ def main():
         finally:
             sh(["git", "-C", "/repo", "worktree", "remove", "--force", wt])
             shutil.rmtree(wt, ignore_errors=True)
+    # witnesses of recorded (unrepaired) findings: reproduced on the unchanged tree with the findings file ignored
+    for prop, clause, feat, dest_name, runs in FINDINGS:
+        if only and prop not in only:
+            continue
+        for f in glob.glob(os.path.join(VERIF, "replays", prop, "[0-9]*.json")):
+            os.remove(f)
+        env = dict(os.environ, VERIF_IGNORE_FINDINGS="1", VERIF_RUNS=str(runs))
+        r = sh([os.path.join(VERIF, "bin", "check"), "run", prop, "quick"], env=env, cwd=VERIF)
+        cand = []
+        for f in sorted(glob.glob(os.path.join(VERIF, "replays", prop, "[0-9]*.json"))):
+            d = json.load(open(f))
+            fk = ",".join("%s=%s" % kv for kv in sorted((d.get("features") or {}).items()))
+            if d["clause"] == clause and feat in fk:
+                cand.append(f)
+        if not cand:
+            print(r.stdout[-2000:])
+            raise SystemExit("%s: the recorded finding was not reproduced" % prop)
+        shutil.copy(cand[0], os.path.join(VERIF, "replays", prop, dest_name))
+        for f in glob.glob(os.path.join(VERIF, "replays", prop, "[0-9]*.json")):
+            os.remove(f)
+        print("finding witness", "replays/%s/%s" % (prop, dest_name))
     # rewrite KNOWN_FINDINGS.txt: keep comments, findings and untouched fixed lines
     kf = os.path.join(VERIF, "KNOWN_FINDINGS.txt")
     old = open(kf).read().splitlines()
